@@ -1,7 +1,7 @@
 (* Engine 1: scripts of world operations over two worlds; decoder, interpreter and observation
    encoders.  The Rust harness (harness/src/world_engine.rs) implements the same protocol. *)
 From Coq Require Import List NArith ZArith Bool.
-From HecsV Require Import Base.ListN Model.EntityBits Model.Types Model.Entities Model.World Model.Query Model.Containers.
+From HecsV Require Import Base.ListN Model.EntityBits Model.Types Model.Entities Model.World Model.Query Model.Containers Model.Guards.
 Import ListNotations.
 Open Scope N_scope.
 
@@ -19,7 +19,8 @@ Definition conts_new : conts :=
   {| k_eb := repeat common_new 4; k_ebc := repeat common_new 4; k_built := repeat None 4;
      k_batch := repeat None 4; k_cmd := repeat cmdbuf_new 2; k_next := 1073741824 |}.
 
-Record est := { e_u : universe; e_ws : list wslot; e_handles : list entity; e_prep : list (N * prepared); e_k : conts }.
+Record est := { e_u : universe; e_ws : list wslot; e_handles : list entity; e_prep : list (N * prepared); e_k : conts;
+                e_guards : list guard; e_cells : list cells }.
 
 (* table entry recorded when an operation that should have produced a handle failed *)
 Definition NOHANDLE : entity := {| e_id := 200; e_gen := 4294967295 |}.
@@ -195,7 +196,7 @@ Definition run_query (st : est) (wi : N) (w : world) (qidx path arg : N) (q : qu
          (st, lenN bs :: concat (map (enc_entries u) bs))
   | 4 | 5 | 6 =>
       let p := pq_refresh (assoc_prep qidx (e_prep st)) (wi + 1) w q in
-      let st' := {| e_u := e_u st; e_ws := e_ws st; e_handles := e_handles st; e_prep := (qidx, p) :: e_prep st; e_k := e_k st |} in
+      let st' := {| e_u := e_u st; e_ws := e_ws st; e_handles := e_handles st; e_prep := (qidx, p) :: e_prep st; e_k := e_k st; e_guards := e_guards st; e_cells := e_cells st |} in
       if N.eqb path 6 then (st', concat (map (fun h => enc_opt_item u (pq_view_get p w q h)) hs))
       else (st', pq_len p w :: enc_entries u (pq_iter p w q))
   | 7 => (st, concat (map (fun h => match query_one w q h with
@@ -213,10 +214,10 @@ Definition get_w (st : est) (i : N) : option world :=
   end.
 
 Definition set_w (st : est) (i : N) (w : world) (state : N) : est :=
-  {| e_u := e_u st; e_ws := updN (e_ws st) i {| ws_world := w; ws_state := state |}; e_handles := e_handles st; e_prep := e_prep st; e_k := e_k st |}.
+  {| e_u := e_u st; e_ws := updN (e_ws st) i {| ws_world := w; ws_state := state |}; e_handles := e_handles st; e_prep := e_prep st; e_k := e_k st; e_guards := e_guards st; e_cells := e_cells st |}.
 
 Definition add_handles (st : est) (hs : list entity) : est :=
-  {| e_u := e_u st; e_ws := e_ws st; e_handles := e_handles st ++ hs; e_prep := e_prep st; e_k := e_k st |}.
+  {| e_u := e_u st; e_ws := e_ws st; e_handles := e_handles st ++ hs; e_prep := e_prep st; e_k := e_k st; e_guards := e_guards st; e_cells := e_cells st |}.
 
 Definition out_ok (u : universe) (ret : list N) (dropped : list (tid * val)) : list N :=
   [0; lenN ret] ++ ret ++ enc_vals u dropped.
@@ -229,7 +230,7 @@ Definition vals_flat (l : list (tid * val)) : list N := concat (map (fun p => [s
 
 (* ---- containers (opcodes 50..86) ---- *)
 Definition set_k (st : est) (k : conts) : est :=
-  {| e_u := e_u st; e_ws := e_ws st; e_handles := e_handles st; e_prep := e_prep st; e_k := k |}.
+  {| e_u := e_u st; e_ws := e_ws st; e_handles := e_handles st; e_prep := e_prep st; e_k := k; e_guards := e_guards st; e_cells := e_cells st |}.
 Definition k_with_eb (k : conts) (l : list common) : conts :=
   {| k_eb := l; k_ebc := k_ebc k; k_built := k_built k; k_batch := k_batch k; k_cmd := k_cmd k; k_next := k_next k |}.
 Definition k_with_ebc (k : conts) (l : list common) : conts :=
@@ -452,10 +453,223 @@ Definition conts_drop_all (k : conts) : list (tid * val) :=
   ++ concat (map (fun o => match o with Some b => cbatch_values b | None => [] end) (k_batch k))
   ++ concat (map cm_live_values (k_cmd k)).
 
+(* ---- borrow guards (opcodes 100..115) ---- *)
+Definition set_g (st : est) (gs : list guard) (cs : list cells) : est :=
+  {| e_u := e_u st; e_ws := e_ws st; e_handles := e_handles st; e_prep := e_prep st; e_k := e_k st;
+     e_guards := gs; e_cells := cs |}.
+Definition cells_of (st : est) (w : N) : cells := match nthN (e_cells st) w with Some c => c | None => [] end.
+Definition archs_of (st : est) (w : N) : list arch :=
+  match nthN (e_ws st) w with Some s => w_archs (ws_world s) | None => [] end.
+Definition push_guard (st : est) (g : guard) (w : N) (cs : cells) : est :=
+  set_g st (e_guards st ++ [g]) (updN (e_cells st) w cs).
+Definition dec_ast (l : list N) : query * list N :=
+  match l with
+  | n :: r => (fst (dec_query (S (length (takeN n r))) (takeN n r)), dropN n r)
+  | [] => (QTup [], [])
+  end.
+
+Definition dump_cells (st : est) : list N :=
+  concat (map (fun wi =>
+    match get_w st wi with
+    | None => [7]
+    | Some w =>
+        5 :: concat (map (fun ia =>
+               let '(i, a) := ia in
+               map (fun t => match a_rows a with
+                             | [] => 0
+                             | _ => cell_code (cell_get (cells_of st wi) i t)
+                             end) (sort_by (fun t => t) (a_types a)))
+             (combine (seqN 0 (lenN (w_archs w))) (w_archs w)))
+    end) [0; 1]).
+
+Definition drop_slot (st : est) (slot : N) : est * bool :=
+  match nthN (e_guards st) slot with
+  | Some g =>
+      match guard_world g with
+      | Some w =>
+          let '(cs, p) := guard_drop (cells_of st w) (archs_of st w) g in
+          (set_g st (updN (e_guards st) slot GNone) (updN (e_cells st) w cs), p)
+      | None => (st, false)
+      end
+  | None => (st, false)
+  end.
+
+Fixpoint drop_all_slots (fuel : nat) (st : est) (slot : N) : est :=
+  match fuel with
+  | O => st
+  | S f => drop_all_slots f (fst (drop_slot st slot)) (N.succ slot)
+  end.
+
+(* the arguments of a guard-creating opcode, for skipping it when its world is gone *)
+Definition skip_guard_args (st : est) (opc : N) (l : list N) : list N :=
+  match opc, l with
+  | 100, _ :: _ :: r1 | 104, _ :: _ :: r1 | 105, _ :: _ :: r1 => snd (dec_ast r1)
+  | 106, _ :: r1 => match snd (dec_href st r1) with _ :: _ :: rest => rest | _ => [] end
+  | 108, _ :: r1 => match snd (dec_href st r1) with _ :: r3 => snd (dec_ast r3) | [] => [] end
+  | 111, _ :: _ :: _ :: _ :: rest => rest
+  | _, _ => l
+  end.
+
+Definition creates_guard (opc : N) : bool :=
+  N.eqb opc 100 || N.eqb opc 104 || N.eqb opc 105 || N.eqb opc 106 || N.eqb opc 108 || N.eqb opc 111.
+
+Definition exec_guard (st : est) (opc : N) (l : list N) : est * list N * list N :=
+  if creates_guard opc && match l with w :: _ => match get_w st w with None => true | Some _ => false end | [] => false end
+  then (push_guard st GNone 0 (cells_of st 0), skip_guard_args st opc l, [8]) else
+  match opc, l with
+  | 100, w :: _ :: r1 =>
+      let '(q, rest) := dec_ast r1 in
+      (push_guard st (GQuery w q false) w (cells_of st w), rest, [0])
+  | 101, slot :: rest =>
+      match nthN (e_guards st) slot with
+      | Some (GQuery w q false) =>
+          match start_borrow (cells_of st w) 0 (archs_of st w) q with
+          | (cs, true) => (set_g st (updN (e_guards st) slot (GQuery w q true)) (updN (e_cells st) w cs), rest, [0])
+          | (cs, false) => (set_g st (e_guards st) (updN (e_cells st) w cs), rest, [9])
+          end
+      | Some (GQuery _ _ true) => (st, rest, [0])
+      | _ => (st, rest, [8])
+      end
+  | 102, slot :: kind :: _ :: _ :: r1 =>
+      let '(r, rest) := dec_ast r1 in
+      match nthN (e_guards st) slot with
+      | Some (GQuery w q b) =>
+          let '(st1, _) := drop_slot st slot in
+          (push_guard st1 (GQuery w (if N.eqb kind 0 then QWith q r else QWithout q r) false) w (cells_of st1 w), rest, [0])
+      | _ => (push_guard st GNone 0 (cells_of st 0), rest, [8])
+      end
+  | 103, slot :: rest =>
+      let '(st1, p) := drop_slot st slot in (st1, rest, [if p then 9 else 0])
+  | 104, w :: _ :: r1 =>
+      let '(q, rest) := dec_ast r1 in
+      match start_borrow (cells_of st w) 0 (archs_of st w) q with
+      | (cs, true) => (push_guard st (GView w q) w cs, rest, [0])
+      | (cs, false) => (push_guard st GNone w cs, rest, [9])
+      end
+  | 105, w :: _ :: r1 =>
+      let '(q, rest) := dec_ast r1 in
+      let state := match nthN (e_ws st) w with
+                   | Some s => pq_state (pq_prepare 0 (ws_world s) q)
+                   | None => []
+                   end in
+      match prepared_borrow (cells_of st w) (archs_of st w) q state with
+      | (cs, true) => (push_guard st (GPrep w q state) w cs, rest, [0])
+      | (cs, false) => (push_guard st GNone w cs, rest, [9])
+      end
+  | 106, w :: r1 =>
+      let '(h, r2) := dec_href st r1 in
+      match r2 with
+      | t :: uniq :: rest =>
+          match get_w st w with
+          | None => (push_guard st GNone w (cells_of st w), rest, [8])
+          | Some wd =>
+              match w_entity wd h with
+              | None => (push_guard st GNone w (cells_of st w), rest, [1])
+              | Some (a, _) =>
+                  match get (w_ents wd) h with
+                  | Some lo =>
+                      if mem_tid t (a_types a) then
+                        match borrow1 (cells_of st w) (l_arch lo) t (N.eqb uniq 1) with
+                        | Some cs => (push_guard st (if N.eqb uniq 1 then GRefMut w (l_arch lo) t else GRef w (l_arch lo) t) w cs, rest, [0])
+                        | None => (push_guard st GNone w (cells_of st w), rest, [9])
+                        end
+                      else (push_guard st GNone w (cells_of st w), rest, [2])
+                  | None => (push_guard st GNone w (cells_of st w), rest, [1])
+                  end
+              end
+          end
+      | _ => (st, [], [])
+      end
+  | 107, slot :: rest =>
+      match nthN (e_guards st) slot with
+      | Some (GRef w a t) =>
+          match borrow1 (cells_of st w) a t false with
+          | Some cs => (push_guard st (GRef w a t) w cs, rest, [0])
+          | None => (push_guard st GNone w (cells_of st w), rest, [9])
+          end
+      | _ => (push_guard st GNone 0 (cells_of st 0), rest, [8])
+      end
+  | 108, w :: r1 =>
+      let '(h, r2) := dec_href st r1 in
+      match r2 with
+      | _ :: r3 =>
+          let '(q, rest) := dec_ast r3 in
+          match get_w st w with
+          | None => (push_guard st GNone w (cells_of st w), rest, [8])
+          | Some wd =>
+              match get (w_ents wd) h with
+              | Some lo => (push_guard st (GOne w q (l_arch lo) false) w (cells_of st w), rest, [0])
+              | None => (push_guard st GNone w (cells_of st w), rest, [1])
+              end
+          end
+      | [] => (st, [], [])
+      end
+  | 109, slot :: rest =>
+      match nthN (e_guards st) slot with
+      | Some (GOne w q a false) =>
+          match nthN (archs_of st w) a with
+          | Some ar =>
+              match prepare (a_types ar) q with
+              | None => (st, rest, [3])
+              | Some s =>
+                  match borrow_list (cells_of st w) a (borrow_cols q s) with
+                  | (cs, true) => (set_g st (updN (e_guards st) slot (GOne w q a true)) (updN (e_cells st) w cs), rest, [0])
+                  | (cs, false) => (set_g st (e_guards st) (updN (e_cells st) w cs), rest, [9])
+                  end
+              end
+          | None => (st, rest, [8])
+          end
+      | Some (GOne _ _ _ true) => (st, rest, [9])
+      | _ => (st, rest, [8])
+      end
+  | 110, slot :: kind :: _ :: _ :: r1 =>
+      let '(r, rest) := dec_ast r1 in
+      match nthN (e_guards st) slot with
+      | Some (GOne w q a b) =>
+          let '(st1, p) := drop_slot st slot in
+          (push_guard st1 (GOne w (if N.eqb kind 0 then QWith q r else QWithout q r) a false) w (cells_of st1 w), rest, [if p then 9 else 0])
+      | _ => (push_guard st GNone 0 (cells_of st 0), rest, [8])
+      end
+  | 111, w :: ai :: t :: uniq :: rest =>
+      match nthN (archs_of st w) ai with
+      | Some ar =>
+          if mem_tid t (a_types ar) then
+            match a_rows ar with
+            | [] => (push_guard st (GCol w ai t false (N.eqb uniq 1)) w (cells_of st w), rest, [0])
+            | _ => match borrow1 (cells_of st w) ai t (N.eqb uniq 1) with
+                   | Some cs => (push_guard st (GCol w ai t true (N.eqb uniq 1)) w cs, rest, [0])
+                   | None => (push_guard st GNone w (cells_of st w), rest, [9])
+                   end
+            end
+          else (push_guard st GNone w (cells_of st w), rest, [3])
+      | None => (push_guard st GNone w (cells_of st w), rest, [3])
+      end
+  | 112, slot :: rest =>
+      match nthN (e_guards st) slot with
+      | Some (GCol w a t held false) =>
+          if held then
+            match borrow1 (cells_of st w) a t false with
+            | Some cs => (push_guard st (GCol w a t true false) w cs, rest, [0])
+            | None => (push_guard st GNone w (cells_of st w), rest, [9])
+            end
+          else (push_guard st (GCol w a t false false) w (cells_of st w), rest, [0])
+      | _ => (push_guard st GNone 0 (cells_of st 0), rest, [8])
+      end
+  | 113, _ :: r1 =>
+      let '(q, rest) := dec_ast r1 in
+      (st, rest, [if assert_borrow_ok q then 0 else 9])
+  | 114, rest => (st, rest, dump_cells st)
+  | 115, rest =>
+      let st1 := drop_all_slots (length (e_guards st)) st 0 in
+      (st1, rest, dump_cells st1)
+  | _, _ => (st, [], [])
+  end.
+
 (* one operation; returns the new state, the rest of the script and the observation *)
 Definition exec_op (st : est) (opc : N) (l : list N) : est * list N * list N :=
   let u := e_u st in
   if N.leb 50 opc && N.leb opc 86 then exec_cont st opc l else
+  if N.leb 100 opc && N.leb opc 115 then exec_guard st opc l else
   if N.eqb opc 22 then
     (* drop every container *)
     (set_k st conts_new, l, out_ok u [] (conts_drop_all (e_k st))) else
@@ -697,7 +911,7 @@ Definition run_world (args : list N) : list N :=
   | n :: r =>
       let '(u, script) := dec_universe (length r) n r in
       let st := {| e_u := u; e_ws := [{| ws_world := world_new; ws_state := 0 |}; {| ws_world := world_new; ws_state := 0 |}];
-                   e_handles := []; e_prep := []; e_k := conts_new |} in
+                   e_handles := []; e_prep := []; e_k := conts_new; e_guards := []; e_cells := [[]; []] |} in
       exec_script (length script) st script
   | [] => []
   end.
@@ -711,7 +925,7 @@ Definition run_twin (args : list N) : list N :=
       match rest with
       | la :: scripts =>
           let st := {| e_u := u; e_ws := [{| ws_world := world_new; ws_state := 0 |}; {| ws_world := world_new; ws_state := 0 |}];
-                       e_handles := []; e_prep := []; e_k := conts_new |} in
+                       e_handles := []; e_prep := []; e_k := conts_new; e_guards := []; e_cells := [[]; []] |} in
           let a := takeN la scripts in
           let b := dropN la scripts in
           exec_script (length a) st a ++ exec_script (length b) st b
